@@ -178,6 +178,7 @@ func WorkerMain(propID, tier string, seed uint64, k, nworkers int, outPath, curP
 		return 2
 	}
 	debug.SetGCPercent(200)
+	debug.SetMemoryLimit(int64(heapLimit(nworkers) / 2)) // soft: the collector works harder long before the watch looks
 	// Heap watch: a mutant that interprets garbage as indexes must end as a
 	// witness, not take the machine down.
 	var curIndex int64 = -1
@@ -195,9 +196,16 @@ func WorkerMain(propID, tier string, seed uint64, k, nworkers int, outPath, curP
 			}
 			mu.Unlock()
 			if ms.Sys > limit {
-				mu.Lock()
-				fmt.Fprintf(os.Stderr, "heap watch: %d bytes obtained from the OS while running case %d\n", ms.Sys, curIndex)
-				os.Exit(3)
+				// memory obtained from the OS includes garbage the collector has not got round to (on a loaded
+				// machine it lags): collect, give back, and judge what is still live
+				runtime.GC()
+				debug.FreeOSMemory()
+				runtime.ReadMemStats(&ms)
+				if ms.HeapAlloc > limit/2 {
+					mu.Lock()
+					fmt.Fprintf(os.Stderr, "heap watch: %d bytes live (%d obtained from the OS) while running case %d\n", ms.HeapAlloc, ms.Sys, curIndex)
+					os.Exit(3)
+				}
 			}
 		}
 	}()
